@@ -59,10 +59,14 @@ pub fn play_game_uci() {
             "position" => {
                 draw_table.clear();
                 board = play_out_position(&commands, &zobrist_hasher, &mut draw_table);
+                #[cfg(walleye_verif)]
+                crate::verif_seam::probe_board("position", &board, &draw_table);
                 info!("{}", board.simple_board());
             }
             "go" => {
                 board = find_and_play_best_move(&commands, &mut board, start, &mut draw_table);
+                #[cfg(walleye_verif)]
+                crate::verif_seam::probe_board("go", &board, &draw_table);
             }
             "setoption" => {
                 if commands.contains(&"DebugLogLevel") && commands.contains(&"Info") {
